@@ -15,7 +15,9 @@ fn main() {
         std::process::exit(2);
     }
     // library panics are data; keep stderr quiet
-    std::panic::set_hook(Box::new(|_| {}));
+    if std::env::var("VH_PANICS").is_err() {
+        std::panic::set_hook(Box::new(|_| {}));
+    }
     trace::start_watchdog(std::env::var("VH_WATCHDOG").ok().and_then(|s| s.parse().ok()).unwrap_or(30));
     let mut opts: HashMap<String, String> = HashMap::new();
     let mut i = 3;
@@ -88,6 +90,35 @@ fn main() {
                 }
                 "wordbackend" => {
                     let (tests, distinct) = drivers::wordbackend::run(&mut tr, seed, opts.get("paths").expect("--paths"), get("seqlen", 3) as usize, get("randlen", 2000) as usize);
+                    extra = format!(",\"tests\":{},\"distinct\":{}", tests, distinct);
+                }
+                "adapter" => {
+                    let (tests, distinct) = drivers::adapter::run(&mut tr, seed, get("depth", 3) as usize, get("nrand", 200) as usize);
+                    extra = format!(",\"tests\":{},\"distinct\":{}", tests, distinct);
+                }
+                "dispatch" => {
+                    let (tests, distinct) = drivers::dispatch::run(&mut tr, seed, get("dense", 64), get("shard", 0) as usize, get("nshards", 1) as usize);
+                    extra = format!(",\"tests\":{},\"distinct\":{}", tests, distinct);
+                }
+                "names" => {
+                    let mut rng = <rand::rngs::SmallRng as rand::SeedableRng>::seed_from_u64(seed);
+                    let tests = drivers::dispatch::names(&mut tr, &mut rng);
+                    extra = format!(",\"tests\":{},\"distinct\":{}", tests, tests);
+                }
+                "zigzag" => {
+                    let (tests, distinct) = drivers::pure::zigzag(&mut tr, seed, get("near", 8) as u32, get("pow", 5) as u32, get("part", 0) as usize);
+                    extra = format!(",\"tests\":{},\"distinct\":{}", tests, distinct);
+                }
+                "vbyteio" => {
+                    let (tests, distinct) = drivers::pure::vbyteio(&mut tr, seed, get("dense", 12) as u32, get("maxlen", 2) as usize, get("sample", 2000) as usize);
+                    extra = format!(",\"tests\":{},\"distinct\":{}", tests, distinct);
+                }
+                "changepoints" => {
+                    let (tests, distinct) = drivers::pure::changepoints(&mut tr, seed, get("full", 0) != 0, get("upto", 16) as u32);
+                    extra = format!(",\"tests\":{},\"distinct\":{}", tests, distinct);
+                }
+                "stats" => {
+                    let (tests, distinct) = drivers::stats::run(&mut tr, seed, get("rounds", 10) as usize, get("threads", 3) as usize);
                     extra = format!(",\"tests\":{},\"distinct\":{}", tests, distinct);
                 }
                 "wstates" => {
